@@ -317,6 +317,9 @@ RACES = [
     ("write-vs-write", ("C08",), "E; NT a 1; NT b 1; NT c 1; BL a 1 a,b,c; ED; C a b; C a c", "W a v1", "W a v2"),
     ("ack-vs-ack", ("C08", "C07", "C02"), "E; NT a 1; NT b 1; NT c 1; BL a 1 a,b,c; ED; C a b; C a c; W a v1; W a v2; S a; "
      "AP a b; AP a b; AP a c; AP a c; S b; S c; AK a b", "AK a b", "AK a c"),
+    # a snapshot of the term-1 leader reaches the follower while it is being fenced in term 2
+    ("snapshot-vs-newterm", ("C04", "C01", "C03"), "E; NT a 1; NT b 1; BL a 1 a,b; ED; C a b; W a v1; S a; AP a b; S b; AK a b; NT c 1; AF c; E",
+     "SN a c", "NT c 2", "traceonly"),   # SendSnapshot takes the director lock, then the controller lock: not atomic
     ("sync-vs-newterm-follower", ("C04", "C03"), "E; NT a 1; NT b 1; NT c 1; BL a 1 a,b,c; ED; C a b; W a v1; S a; AP a b; E", "S b", "NT b 2"),
 ]
 
@@ -329,7 +332,9 @@ def race_cases(ctx, pid, path):
     loader = importlib.machinery.SourceFileLoader("mkscript_mod", os.path.join(sys_path, "mkscript"))
     n = 0
     with open(path, "w") as out:
-        for name, props, prefix, a, b in RACES:
+        for rc in RACES:
+            name, props, prefix, a, b = rc[:5]
+            traceonly = len(rc) > 5 and rc[5] == "traceonly"
             if pid not in props:
                 continue
             pre, sa, sb = parse_steps(prefix), parse_steps(a), parse_steps(b)
@@ -338,7 +343,7 @@ def race_cases(ctx, pid, path):
             if len(ab) != len(pre) + 2 or len(ba) < len(pre) + 1:
                 raise vf.Inconclusive("race case %s: the specification does not follow the script (%d/%d, %d)" %
                                       (name, len(ab), len(pre) + 2, len(ba)))
-            out.write(json.dumps({"name": name, "prefix": ab[:len(pre)], "ab": ab[len(pre):], "ba": ba[len(pre):]}) + "\n")
+            out.write(json.dumps({"name": name, "prefix": ab[:len(pre)], "ab": ab[len(pre):], "ba": ba[len(pre):], "traceonly": traceonly}) + "\n")
             n += 1
     return n
 
@@ -356,7 +361,8 @@ def parse_steps(text):
              "W": lambda: {"a": "Write", "n": p[1], "v": p[2]}, "S": lambda: {"a": "Sync", "n": p[1]},
              "C": lambda: {"a": "Connect", "l": p[1], "f": p[2]}, "AP": lambda: {"a": "Append", "l": p[1], "f": p[2]},
              "AK": lambda: {"a": "Ack", "l": p[1], "f": p[2]}, "RS": lambda: {"a": "Reset", "l": p[1], "f": p[2]},
-             "X": lambda: {"a": "Crash", "n": p[1]}, "R": lambda: {"a": "Restart", "n": p[1]}}
+             "X": lambda: {"a": "Crash", "n": p[1]}, "R": lambda: {"a": "Restart", "n": p[1]},
+             "SN": lambda: {"a": "Snapshot", "l": p[1], "f": p[2]}, "AF": lambda: {"a": "AddFollower", "f": p[1]}}
         out.append(m[k]())
     return out
 
@@ -782,7 +788,13 @@ def run(ctx, pid):
     rpath = os.path.join(ctx.scratch, "races.ndjson")
     if race_cases(ctx, pid, rpath):
         rout = os.path.join(ctx.scratch, "races.json")
-        ctx.run([binp, "race", "-in", rpath, "-out", rout, "-reps", "25" if quick else "400", "-seed", str(ctx.seed)])
+        renv = dict(os.environ)
+        rtrace = os.path.join(ctx.scratch, "races.nodetrace.ndjson")
+        renv["VERIF_TRACE"] = rtrace
+        ctx.run([binp, "race", "-in", rpath, "-out", rout, "-reps", "25" if quick else "400", "-seed", str(ctx.seed)], env=renv)
+        if pid in NODE_EVENTS:
+            # the controllers' own events of the concurrent trials are judged by the node rules as well
+            validate_node_traces(ctx, pid, [rtrace], "races")
         rres = json.load(open(rout))
         ctx.replayed += rres["trials"]
         ctx.log("race pairs: %d cases, %d concurrent trials, %d not serializable" % (rres["cases"], rres["trials"], len(rres.get("mismatches") or [])))
